@@ -601,6 +601,22 @@ def run(ctx):
                 inv[(hp.split('::')[-1], (t.get('x') or 'call').split('>')[-1])] += 1
     ctx.note('diverging_sites_inventory', {f'{k[0]}:{k[1]}': v for k, v in sorted(inv.items())})
 
+    # ---- R09.17 ids and indices of a submit are validated before they are iterated or used as an index
+    ctx.rule('R09.17', 'handle_submit validates the task ids of an array submit (IntArray::validate: non-zero step, no overflow, no id twice) and the resource-request indices of a graph submit before anything iterates the ids, indexes the requests, is stored or is journaled; validate_submit itself contains no assertion on client data')
+    hs17 = prog.body(HQ + 'client::submit::handle_submit')
+    v17 = effect_blocks(prog, hs17, Effect('ids.validate', callees={'hyperqueue::common::arraydef::IntArray::validate'}))
+    eff17 = hs17.call_blocks(STREAMER + 'on_job_submitted') + hs17.call_blocks(HQ + 'state::State::new_job_id') + hs17.call_blocks(HQ + 'client::submit::submit_job_desc') + hs17.call_blocks(HQ + 'client::submit::validate_submit') + \
+        [bi for bi, t, c in hs17.calls() if bi in hs17.reachable() and (c or '').endswith('IntArray::iter')]
+    ctx.floor('R09.17', len(eff17), 3, 'effects / id iterations of handle_submit')
+    ctx.ob('R09.17', 'handle_submit|ids validated first', bool(v17) and all(x not in hs17.reach_from([0], avoid=v17) for x in eff17),
+           'IntArray::validate (and the resource-request index check next to it) dominates validate_submit, every iteration of the ids and every effect of the submit', hs17.loc(sorted(v17)[0]) if v17 else hs17.loc())
+    vsb = prog.body(HQ + 'client::submit::validate_submit')
+    asserts = [bi for bi in vsb.reachable() if vsb.term[bi] and vsb.term[bi]['k'] == 'call' and (callee_of(vsb.term[bi]) or '').endswith(('panicking::panic', 'panicking::panic_fmt', 'panicking::assert_failed')) and 'IndexVec' not in (vsb.term[bi].get('x') or '')]
+    ctx.ob('R09.17', 'validate_submit|no assertion on client data', not asserts, 'validate_submit refuses, it does not assert', vsb.loc(asserts[0]) if asserts else vsb.loc())
+    iav = prog.body('hyperqueue::common::arraydef::IntArray::validate')
+    ctx.ob('R09.17', 'IntArray::validate|step, overflow, duplicates', bool(iav.call_blocks(lambda c: c.endswith('checked_add'))) and any((c or '').endswith(('Set::insert', 'HashSet::insert')) for p_ in prog.with_closures(iav.path) for bi, t, c in prog.bodies[p_].calls()),
+           'IntArray::validate checks the step, the end of every range (checked_add) and the uniqueness of the ids (a set)', iav.loc())
+
 
 def _variant_can_return(b, enum, k, v):
     st = b.variant_flow(enum).get(k, {})
